@@ -107,7 +107,7 @@ func newUpstream(cfg *config, hosts []*host.Host, logger log.Logger, stats *proc
 
 func (u *upstream) Serve() {
 	var wg sync.WaitGroup
-	wg.Add(2)
+	wg.Add(3)
 	go func() {
 		defer wg.Done()
 		u.loopRefreshSlots()
@@ -116,23 +116,23 @@ func (u *upstream) Serve() {
 		defer wg.Done()
 		u.hkc.Run(u.quit)
 	}()
-	redirsDone := make(chan struct{})
 	go func() {
-		defer close(redirsDone)
+		defer wg.Done()
 		u.loopRedirect()
 	}()
-	wg.Wait()
+	<-u.quit
 
 	// stop all clients
+	// NOTE: The loops above can't be waited for first. The refresh loop and
+	// the redirect loop may be blocked in sending to a client whose queues
+	// are full, they are only woken by the stop of that client.
 	u.clientsMu.Lock()
 	clients := u.loadClients()
 	for _, c := range clients {
 		c.Stop()
 	}
 	u.clientsMu.Unlock()
-	// NOTE: The redirect loop may be blocked in sending to a client, it's
-	// only woken by the stop of that client.
-	<-redirsDone
+	wg.Wait()
 	close(u.done)
 }
 
